@@ -32,7 +32,7 @@ TECHNIQUE = "property-based testing (Hypothesis): model-based oracle (determinat
 
 
 def cases(tier):
-    return 2400 if tier == "quick" else 96000
+    return 2400 if tier == "quick" else 480000
 
 
 def strategy(hazards):
